@@ -143,6 +143,18 @@ def run(ctx, rep):
     _identity.run(F, rep)
     _identity.zip_lengths(F, rep, "C03.zip-length")
     signature_invariance(F, rep, "C03.signature-invariance")
+    # "operator applied to unsupported kinds" is refused: the static operator table accepts no cell the interpreter's operators refuse by kind (the
+    # comparison of the two tables is C02's; the same cells, read as "an ill-typed operator expression is rejected", belong here too)
+    from props import C02 as _c02
+    from core import Report as _Report
+    tmp = _Report("C02", rep.tier)
+    _c02.run_optable(ctx, tmp, F)
+    n_cells = 0
+    for o in tmp.obligations:
+        if o["rule"] == "C02.op-table":
+            n_cells += 1
+            rep.ob("C03.op-table", o["instance"], o["status"], o["detail"], o["where"], key=o["key"].replace("C02.", "C03.", 1), fn=o.get("fn"))
+    rep.floor("C03.op-table cells", n_cells, 500)
     every_argument_is_checked(F, rep, "C03.arity")
     optional_not_accepted_for_plain(F, rep, "C03.optional-direction")
     # leaves that are not checked where they are built (a bare `self` outside of a class) are rejected by the check of the finished tree
